@@ -73,9 +73,10 @@ def TokOK : Token → Prop
   | .start n a => TagNameOK n ∧ isRawText n = false ∧ ∀ x ∈ a, AttrOK x
   | .startend n a => TagNameOK n ∧ ∀ x ∈ a, AttrOK x
   | .end_ n => TagNameOK n
-  | .data s => s ≠ [] ∧ ∀ c ∈ s, (c ≠ '<' ∧ c ≠ '&')
+  | .data s => s = ['<'] ∨ s = ['&'] ∨ (s ≠ [] ∧ ∀ c ∈ s, (c ≠ '<' ∧ c ≠ '&'))
   | .entity n => (∃ c cs, n = c :: cs ∧ isAlpha c = true) ∧ ∀ c ∈ n, isEntCh c = true
-  | .charref n => n ≠ [] ∧ ∀ c ∈ n, isDigit c = true
+  | .charref n => (n ≠ [] ∧ ∀ c ∈ n, isDigit c = true) ∨
+      (∃ x hs, n = x :: hs ∧ (x = 'x' ∨ x = 'X') ∧ hs ≠ [] ∧ ∀ c ∈ hs, isHex c = true)
   | .comment c => CommentOK c
   | .decl d => lower (d.take 7) = "doctype".toList ∧ '>' ∉ d
   | .pi p => '>' ∉ p
@@ -362,11 +363,18 @@ theorem isWs_of_alpha (c : Char) (h : isAlpha c = true) : isWs c = false := by
     simp only [isWs, Bool.or_eq_true, decide_eq_true_eq] at hw
     rcases hw with (((((((((e|e)|e)|e)|e)|e)|e)|e)|e)|e) <;> (subst e; revert h; decide)
 
-/-- what may follow a token in a rendering: after a data run, nothing or something that opens markup or a reference -/
+/-- what may follow a token in a rendering: after a data run, nothing or something that opens markup or a
+    reference; after the data singleton `<`, a character that cannot open markup; after `&`, one that cannot
+    start a reference -/
 def Follows (t : Token) (rest : Str) : Prop :=
   match t with
-  | .data _ => rest = [] ∨ ∃ r, rest = '<' :: r ∨ rest = '&' :: r
+  | .data s =>
+    if s = ['<'] then ∃ c r, rest = c :: r ∧ isAlpha c = false ∧ c ≠ '/' ∧ c ≠ '!' ∧ c ≠ '?'
+    else if s = ['&'] then ∃ c r, rest = c :: r ∧ isAlpha c = false ∧ c ≠ '#'
+    else rest = [] ∨ ∃ r, rest = '<' :: r ∨ rest = '&' :: r
   | _ => True
+
+theorem hex_semicolon : isHex ';' = false := by decide
 
 theorem commentCloses_none (c0 : Char) (t : Str) (h : ¬ (c0 = '-' ∧ ∃ r, t = '-' :: r)) :
     commentCloses (c0 :: t) = none := by
@@ -415,26 +423,38 @@ theorem lexOne_render (t : Token) (h : TokOK t) (rest : Str) (hf : Follows t res
   cases t with
   | unknownDecl d => exact absurd h (by simp [TokOK])
   | data s =>
-    obtain ⟨hne, hall⟩ := h
-    obtain ⟨c, s', rfl⟩ := List.exists_cons_of_ne_nil hne
-    have hc := hall c (by simp)
-    have hallT : ∀ x ∈ c :: s', isTextCh x = true := by
-      intro x hx; have := hall x hx; simp [isTextCh, this.1, this.2]
-    have hsp : span isTextCh ((c :: s') ++ rest) = (c :: s', rest) := by
-      rcases hf with rfl | ⟨r, rfl | rfl⟩
-      · simpa using span_all _ (c :: s') hallT
-      · exact span_append _ _ _ _ hallT (by decide)
-      · exact span_append _ _ _ _ hallT (by decide)
-    simp only [renderTok, List.cons_append] at hsp ⊢
-    unfold lexOne
-    split
-    · rename_i heq; simp at heq
-    · rename_i heq; simp at heq; exact absurd heq.1 hc.1
-    · rename_i heq; simp at heq; exact absurd heq.1 hc.2
-    · rename_i c' r' _ _ heq
-      simp at heq
-      obtain ⟨rfl, rfl⟩ := heq
-      simp [hsp]
+    rcases h with rfl | rfl | ⟨hne, hall⟩
+    · -- the singleton `<`
+      simp only [Follows, if_true] at hf
+      obtain ⟨c, r, rfl, h1, h2, h3, h4⟩ := hf
+      simp [renderTok, lexOne, h1, h2, h3, h4]
+    · -- the singleton `&`
+      have hne' : (['&'] : Str) ≠ ['<'] := by decide
+      simp only [Follows, hne', if_false, if_true] at hf
+      obtain ⟨c, r, rfl, h1, h2⟩ := hf
+      simp [renderTok, lexOne, h1, h2]
+    · obtain ⟨c, s', rfl⟩ := List.exists_cons_of_ne_nil hne
+      have hc := hall c (by simp)
+      have hn1 : (c :: s') ≠ ['<'] := by intro e; simp at e; exact hc.1 e.1
+      have hn2 : (c :: s') ≠ ['&'] := by intro e; simp at e; exact hc.2 e.1
+      simp only [Follows, hn1, hn2, if_false] at hf
+      have hallT : ∀ x ∈ c :: s', isTextCh x = true := by
+        intro x hx; have := hall x hx; simp [isTextCh, this.1, this.2]
+      have hsp : span isTextCh ((c :: s') ++ rest) = (c :: s', rest) := by
+        rcases hf with rfl | ⟨r, rfl | rfl⟩
+        · simpa using span_all _ (c :: s') hallT
+        · exact span_append _ _ _ _ hallT (by decide)
+        · exact span_append _ _ _ _ hallT (by decide)
+      simp only [renderTok, List.cons_append] at hsp ⊢
+      unfold lexOne
+      split
+      · rename_i heq; simp at heq
+      · rename_i heq; simp at heq; exact absurd heq.1 hc.1
+      · rename_i heq; simp at heq; exact absurd heq.1 hc.2
+      · rename_i c' r' _ _ heq
+        simp at heq
+        obtain ⟨rfl, rfl⟩ := heq
+        simp [hsp]
   | entity n =>
     obtain ⟨⟨c, cs, rfl, hca⟩, hall⟩ := h
     have hsp : span isEntCh ((c :: cs) ++ ';' :: rest) = (c :: cs, ';' :: rest) :=
@@ -443,15 +463,20 @@ theorem lexOne_render (t : Token) (h : TokOK t) (rest : Str) (hf : Follows t res
     simp only [renderTok, List.cons_append, List.append_assoc, List.singleton_append] at hsp ⊢
     simp [lexOne, hne, hca, hsp]
   | charref n =>
-    obtain ⟨hne, hall⟩ := h
-    obtain ⟨c, cs, rfl⟩ := List.exists_cons_of_ne_nil hne
-    have hcd := hall c (by simp)
-    have hx : c ≠ 'x' ∧ c ≠ 'X' := by
-      constructor <;> (intro e; rw [e] at hcd; exact absurd hcd (by decide))
-    have hsp : span isDigit ((c :: cs) ++ ';' :: rest) = (c :: cs, ';' :: rest) :=
-      span_append _ _ _ _ hall digit_semicolon
-    simp only [renderTok, List.cons_append, List.append_assoc, List.singleton_append] at hsp ⊢
-    simp [lexOne, hx.1, hx.2, hsp]
+    rcases h with ⟨hne, hall⟩ | ⟨x, hs, rfl, hx, hne, hall⟩
+    · obtain ⟨c, cs, rfl⟩ := List.exists_cons_of_ne_nil hne
+      have hcd := hall c (by simp)
+      have hx : c ≠ 'x' ∧ c ≠ 'X' := by
+        constructor <;> (intro e; rw [e] at hcd; exact absurd hcd (by decide))
+      have hsp : span isDigit ((c :: cs) ++ ';' :: rest) = (c :: cs, ';' :: rest) :=
+        span_append _ _ _ _ hall digit_semicolon
+      simp only [renderTok, List.cons_append, List.append_assoc] at hsp ⊢
+      simp [lexOne, hx.1, hx.2, hsp]
+    · have hsp : span isHex (hs ++ ';' :: rest) = (hs, ';' :: rest) :=
+        span_append _ _ _ _ hall hex_semicolon
+      have hne2 : hs.isEmpty = false := by cases hs <;> simp_all
+      simp only [renderTok, List.cons_append, List.append_assoc]
+      rcases hx with rfl | rfl <;> simp [lexOne, hsp, hne2]
   | comment c =>
     have hlen : (c ++ '-' :: '-' :: '>' :: rest).length < k := by
       simp [renderTok] at hk ⊢; omega
@@ -538,7 +563,25 @@ theorem renderToks_append (xs ys : List Token) : renderToks (xs ++ ys) = renderT
 
 theorem renderTok_ne_nil (t : Token) (h : TokOK t) : renderTok t ≠ [] := by
   cases t <;> simp [renderTok, TokOK] at h ⊢
-  exact h.1
+  rcases h with rfl | rfl | h
+  · simp
+  · simp
+  · exact h.1
+
+/-- a token list in the serialiser's image: every token well formed and followed by something that keeps
+    it a token of its own -/
+def ListOK : List Token → Prop
+  | [] => True
+  | t :: ts => TokOK t ∧ Follows t (renderToks ts) ∧ ListOK ts
+
+theorem ListOK.tokOK {ts : List Token} (h : ListOK ts) : ∀ t ∈ ts, TokOK t := by
+  induction ts with
+  | nil => intro t ht; simp at ht
+  | cons x xs ih =>
+    intro t ht
+    rcases List.mem_cons.mp ht with e | e
+    · rw [e]; exact h.1
+    · exact ih h.2.2 t e
 
 /-- a token that is not a data run renders to something that starts with `<` or `&` -/
 theorem render_head (t : Token) (h : TokOK t) (hd : isData t = false) :
@@ -555,10 +598,17 @@ theorem render_head (t : Token) (h : TokOK t) (hd : isData t = false) :
   | decl d => exact ⟨_, Or.inl rfl⟩
   | pi d => exact ⟨_, Or.inl rfl⟩
 
-theorem renderToks_follows (t : Token) (ts : List Token) (hts : ∀ x ∈ ts, TokOK x)
+/-- the token is not one of the data singletons `<` / `&` -/
+def NotSingleton : Token → Prop
+  | .data s => s ≠ ['<'] ∧ s ≠ ['&']
+  | _ => True
+
+theorem renderToks_follows (t : Token) (hns : NotSingleton t) (ts : List Token) (hts : ∀ x ∈ ts, TokOK x)
     (hadj : NoAdjData (t :: ts)) : Follows t (renderToks ts) := by
   cases t with
   | data s =>
+    simp only [NotSingleton] at hns
+    simp only [Follows, hns.1, hns.2, if_false]
     cases ts with
     | nil => left; rfl
     | cons t2 ts2 =>
@@ -575,7 +625,7 @@ theorem renderToks_follows (t : Token) (ts : List Token) (hts : ∀ x ∈ ts, To
   | _ => trivial
 
 /-- **lexing the rendering of a well-formed token list gives the list back** -/
-theorem lexN_renderToks (ts : List Token) (h : ∀ t ∈ ts, TokOK t) (hadj : NoAdjData ts) :
+theorem lexN_renderToks (ts : List Token) (h : ListOK ts) :
     ∀ k, (renderToks ts).length < k → lexN k (renderToks ts) = some ts := by
   induction ts with
   | nil =>
@@ -588,27 +638,34 @@ theorem lexN_renderToks (ts : List Token) (h : ∀ t ∈ ts, TokOK t) (hadj : No
     cases k with
     | zero => simp at hk
     | succ k =>
-      have ht : TokOK t := h t (by simp)
-      have hts : ∀ x ∈ ts, TokOK x := fun x hx => h x (by simp [hx])
-      have hadj' : NoAdjData ts := by
-        cases ts with
-        | nil => trivial
-        | cons t2 ts2 => exact hadj.2
+      obtain ⟨ht, hf, hts⟩ := h
       have hne := renderTok_ne_nil t ht
       have hpos : 0 < (renderTok t).length := List.length_pos_iff.mpr hne
       have hlen : (renderToks ts).length < k := by
         simp [renderToks] at hk; omega
-      have hone := lexOne_render t ht (renderToks ts) (renderToks_follows t ts hts hadj) (k + 1)
-        (by simpa [renderToks] using hk)
+      have hone := lexOne_render t ht (renderToks ts) hf (k + 1) (by simpa [renderToks] using hk)
       have hnn : (renderTok t ++ renderToks ts).isEmpty = false := by
         cases hr : renderTok t with
         | nil => exact absurd hr hne
         | cons c r => rfl
-      have hlt : (renderToks ts).length < (renderTok t ++ renderToks ts).length := by simp; omega
-      simp [renderToks, lexN, hnn, hone, hne, ih hts hadj' k hlen]
+      simp [renderToks, lexN, hnn, hone, hne, ih hts k hlen]
 
-theorem lexStrict_renderToks (ts : List Token) (h : ∀ t ∈ ts, TokOK t) (hadj : NoAdjData ts) :
+theorem lexStrict_renderToks (ts : List Token) (h : ListOK ts) :
     lexStrict (renderToks ts) = some ts :=
-  lexN_renderToks ts h hadj _ (Nat.lt_succ_self _)
+  lexN_renderToks ts h _ (Nat.lt_succ_self _)
+
+/-- a sufficient condition without the singletons: all tokens well formed, no two data runs adjacent -/
+theorem listOK_of_noAdjData (ts : List Token) (h : ∀ t ∈ ts, TokOK t) (hns : ∀ t ∈ ts, NotSingleton t)
+    (hadj : NoAdjData ts) : ListOK ts := by
+  induction ts with
+  | nil => trivial
+  | cons t ts ih =>
+    have hts : ∀ x ∈ ts, TokOK x := fun x hx => h x (by simp [hx])
+    have hadj' : NoAdjData ts := by
+      cases ts with
+      | nil => trivial
+      | cons t2 ts2 => exact hadj.2
+    exact ⟨h t (by simp), renderToks_follows t (hns t (by simp)) ts hts hadj,
+      ih hts (fun x hx => hns x (by simp [hx])) hadj'⟩
 
 end AHP
